@@ -171,6 +171,19 @@ fn hash_str(s: &str) -> u64 {
     h.finish()
 }
 
+static THOROUGH: std::sync::atomic::AtomicBool = std::sync::atomic::AtomicBool::new(false);
+pub fn set_thorough(b: bool) {
+    THOROUGH.store(b, std::sync::atomic::Ordering::Relaxed);
+}
+/// Size multiplier for generated programs: 1 in the quick tier, 3 in the thorough tier (bigger programs, not only more).
+pub fn scale() -> u64 {
+    if THOROUGH.load(std::sync::atomic::Ordering::Relaxed) {
+        3
+    } else {
+        1
+    }
+}
+
 pub fn verif_root() -> std::path::PathBuf {
     std::env::var("PV_ROOT")
         .map(std::path::PathBuf::from)
